@@ -808,6 +808,12 @@ class G:
             lambda: ("eq", R, ("div", e1, e1), num(R, 1)),
             lambda: ("eq", R, ("div", num(R, 3), num(R, 0)), num(R, 0)),
             lambda: ("gt", R, ("div", num(R, 3), ("sub", R, e1, e1)), num(R, 0)),
+            # --- integer literals of type real under if/max/min/abs, then divided (sort Int vs Real)
+            lambda: ("eq", R, ("div", ("ite", R, ("var", "p", B), num(R, 1), num(R, 3)), num(R, 2)), ("ite", R, ("var", "p", B), num(R, 0), num(R, 1))),
+            lambda: ("eq", R, ("div", ("ite", R, ("var", "p", B), num(R, 1), num(R, 3)), num(R, 2)), ("ite", R, ("var", "p", B), num(R, Fraction(1, 2)), num(R, Fraction(3, 2)))),
+            lambda: (lambda k1, k2, k3: ("eq", R, ("div", ("max", R, num(R, k1), num(R, k2)), num(R, k3)), num(R, r.choice([max(k1, k2) // k3, Fraction(max(k1, k2), k3)]))))(r.randint(0, 7), r.randint(0, 7), r.randint(2, 4)),
+            lambda: (lambda k1, k3: ("lt", R, ("div", ("abs", R, num(R, k1)), num(R, k3)), num(R, r.choice([abs(k1) // k3 + 1, Fraction(abs(k1), k3)]))))(r.randint(-7, 7), r.randint(2, 4)),
+            lambda: ("eq", R, ("mul", R, ("div", ("min", R, num(R, 3), e1), num(R, 2)), num(R, 2)), ("min", R, num(R, 3), e1)),
             # --- min / max / abs
             lambda: ("ge", ty, ("max", ty, t1, t2), t1),
             lambda: ("ge", ty, ("max", ty, t1, t2), t2),
